@@ -1,20 +1,28 @@
 """C15 -- every equation formulation Lcapy prints is satisfied by the solution it reports.
 
-1. lake build Lcapy.Props.C15 re-proves the theorems about the executable models of
-   NodalAnalysis._make_equations / LoopAnalysis._process_loop / from_ba_CCF, _OCF, _DCF
-   (nodal_eqs_hold, kvl_telescopes, mesh_eqs_hold, ccf_realises, ocf_realises, …); #print axioms audit.
-2. Correspondence: generated netlists (R, L, C, V, I; dc / Laplace with and without initial
-   conditions / ac / resistive time domain) and generated proper transfer functions (degree <= 6,
-   numeric and symbolic-sampled coefficients, s and z) are pushed through the real Lcapy and through
-   the Lean model (native driver, exact Gaussian rationals); the printed nodal equations, mesh
-   equations (for the loops networkx returned), MNA matrices and canonical-form matrices are compared
-   as canonical linear forms / entry by entry at random rational sample points.
+1. lake build Lcapy.Props.C15 / C15SS / C15Mesh re-proves the theorems about the executable models of
+   NodalAnalysis._make_equations / LoopAnalysis._process_loop (fix-C15-c: components identified by graph edge) /
+   StateSpaceMaker.from_circuit / from_ba_CCF, _OCF, _DCF (nodal_eqs_hold, kvl_telescopes, mesh_eqs_hold,
+   mesh_complete, mesh_iff_laws, ss_from_circuit, ss_time_domain, ss_along_solutions, ccf_realises, ocf_realises, …);
+   #print axioms audit.
+2. Correspondence: generated netlists (R, L, C, V, I, and E / G / F / H / TF / K lines; dc / Laplace with and without
+   initial conditions / ac with and without source phases / resistive time domain; built in one go or reached by an
+   in-place add / remove on an already analysed circuit object; formulations asked of the analysis-domain sub-circuit
+   or of the circuit object itself) and generated proper transfer functions (degree <= 6, numeric and
+   symbolic-sampled coefficients, s and z) are pushed through the real Lcapy and through the Lean model (native
+   driver, exact Gaussian rationals); the printed nodal equations, mesh equations (for the loops networkx returned),
+   MNA matrices (every kind incl. time), the A, B, C, D of cct.ss (entry by entry, aligned by names) and the
+   canonical-form matrices are compared as canonical linear forms / entry by entry at random rational sample points;
+   what the code refuses (dependent sources, two-ports, current sources in a loop, F/H/K/G in cct.ss, singular
+   substituted circuits) the model refuses, and vice versa.
 3. Oracle (independent of the model): Lcapy's own reported node voltages / branch currents are
    substituted into Lcapy's own printed equations (nodal, mesh with mesh currents recovered from the
-   reported branch currents through the graph edges, MNA A x = Z), the state-space model of the
-   circuit (response C (sI-A)^-1 (B U + x0) + D U vs circuit analysis, G, characteristic polynomial)
-   and the realisations built from transfer functions (Spec predicate `Realises`), all evaluated by
-   the Lean spec predicates through the driver.
+   reported branch currents through the graph edges, MNA A x = Z, the A y = b forms of nodal and mesh analysis,
+   y = Ainv b), the state-space model of the circuit (response C (sI-A)^-1 (B U + x0) + D U vs circuit analysis, G,
+   characteristic polynomial, every rational eigenvalue of A makes the netlist's MNA matrix singular) and the
+   realisations built from transfer functions (Spec predicate `Realises`), all evaluated by the Lean spec predicates
+   through the driver; whether networkx's loops span the cycle space (hypothesis of mesh_iff_laws) is judged by the
+   Lean `checkBasis` on a certificate the driver finds.
 """
 import os
 import sys
@@ -376,7 +384,9 @@ def linear_form(expr, unknowns, subs=None):
 
 
 def negq(s):
-    """negate a driver value 're' or 're,im'"""
+    """negate a driver value 're' or 're,im' (an undefined model value, x/0, stays undefined)"""
+    if 'undef' in s:
+        return s
     return ','.join(fstr(-Fraction(p)) for p in s.split(','))
 
 
@@ -405,9 +415,11 @@ def parse_form(s):
 # --------------------------------------------------------------------------- the check
 
 def run(chk, replay=None):
-    broken = chk.lean(['Lcapy/Props/C15.lean', 'Lcapy/Props/C15SS.lean'],
+    broken = chk.lean(['Lcapy/Props/C15.lean', 'Lcapy/Props/C15SS.lean', 'Lcapy/Props/C15Mesh.lean'],
                       helper_files=['Lcapy/Proofs/Formulations.lean', 'Lcapy/Proofs/Realisations.lean',
-                                    'Lcapy/Proofs/StateSpaceMaker.lean', 'Lcapy/Model/StateSpaceMaker.lean',
+                                    'Lcapy/Proofs/StateSpaceMaker.lean', 'Lcapy/Proofs/StateSpaceTime.lean',
+                                    'Lcapy/Model/StateSpaceMaker.lean', 'Lcapy/Proofs/MeshComplete.lean',
+                                    'Lcapy/Model/MeshComplete.lean',
                                     'Lcapy/Model/Formulations.lean', 'Lcapy/Model/Realisations.lean',
                                     'Lcapy/Spec/StateSpace.lean', 'Lcapy/Spec/Laws.lean', 'Lcapy/Driver/C15.lean'],
                       leanchecker=(chk.tier == 'thorough'))
@@ -425,9 +437,12 @@ def run(chk, replay=None):
     disagreements = []
     state = {'cex': 0}
     chk.coverage['rule'] = (
-        'circuit case = (analysis kind, sample point, netlist) x formulation (nodal / mesh / MNA matrix / state space); '
-        'netlists: random connected graphs on 3-6 nodes (spanning tree + 1-3 extra edges, parallel components allowed), '
-        'components R/L/C with rational values, optional initial conditions, 1-2 sources V/I of kind dc/step/ac, random orientation; '
+        'circuit case = (analysis kind, sample point, netlist, history, route) x formulation (nodal / mesh / their A y = b forms / '
+        'MNA matrix / state space); netlists: random connected graphs on 3-6 nodes (spanning tree + 1-3 extra edges, parallel '
+        'components allowed), components R/L/C with rational values, optional initial conditions, 1-2 sources V/I of kind '
+        'dc/step/ac (ac with phases 0, +-pi/2, pi, atan(3/4), …), random orientation; one netlist in four carries a dependent '
+        'source, transformer or (once C15-k is listed) a coupling; one in two reaches its final netlist by an in-place edit; '
+        'state-space case = netlist with 1-3 reactive components (every second one with E / TF / G / F / H / K); '
         'transfer-function case = (domain s|z, form CCF|OCF|DCF, b, a) with degree 1-6, numeric or symbolic coefficients sampled at '
         'rational points; non-trivial = Lcapy produced the formulation and a finite exact solution; distinct by full input')
     chk.coverage['mesh_variant'] = {}
@@ -608,6 +623,20 @@ def run(chk, replay=None):
                 'a loop returned by CircuitGraph.loops() is not a simple cycle of the circuit graph')
             return
         chk.count('loops', 'simple-cycles', len(loops))
+        # hypothesis of mesh_complete / mesh_iff_laws: do the loops networkx returned span the cycle space (then the mesh
+        # equations are EQUIVALENT to the circuit laws)?  Certificate found by the driver, judged by Lean `checkBasis`.
+        rb = drv.ask1(net.model_req('form.basis x', loopsec))
+        tk = rb.split()
+        if tk and tk[0] in ('true', 'false'):
+            info = dict(t.split('=') for t in tk[1:])
+            chk.count('cycle-basis', 'loops span the cycle space' if tk[0] == 'true' else 'loops do NOT span the cycle space')
+            chk.count('cycle-basis', 'independent' if info.get('rank') == info.get('loops') else 'dependent (more loops than rank)')
+            if tk[0] == 'false' or info.get('rank') != info.get('loops'):
+                chk.coverage.setdefault('loops_not_a_basis_samples', [])
+                if len(chk.coverage['loops_not_a_basis_samples']) < 3:
+                    chk.coverage['loops_not_a_basis_samples'].append({'netlist': net.lines(), 'loops': loops, 'checkBasis': rb})
+        else:
+            chk.count('model', 'basis:' + rb[:30])
         replies = {}
         for variant in MESH_VARIANTS:
             r = drv.ask1(net.model_req('form.mesh %s' % variant, loopsec))
